@@ -12,8 +12,8 @@ PLANS = {
                 quick=[("rand", 300, ""), ("lag", 120, ""), ("wsrand", 100, ""), ("withops", 40, "")],
                 thorough=[("rand", 5000, ""), ("lag", 2000, ""), ("wsrand", 2000, ""), ("withops", 800, "")]),
     "C03": dict(engine=INO, mc=["MC_Events"],
-                quick=[("rand", 300, ""), ("burst", 20, "ks=2+3+17+240+700"), ("absorb", 24, ""), ("moves", 60, "")],
-                thorough=[("rand", 5000, ""), ("burst", 200, "ks=2+3+17+240+2049+5000"), ("absorb", 200, ""), ("moves", 1500, "")]),
+                quick=[("rand", 300, ""), ("burst", 20, "ks=2+3+17+240+700"), ("paced", 40, ""), ("absorb", 24, ""), ("moves", 60, "")],
+                thorough=[("rand", 5000, ""), ("burst", 200, "ks=2+3+17+240+2049+5000"), ("paced", 600, ""), ("absorb", 200, ""), ("moves", 1500, "")]),
     "C04": dict(engine=INO, mc=["MC_WatchSet"],
                 quick=[("wsexh", 196, "k=2"), ("wsexh", 900, "k=3"), ("wsrand", 200, ""), ("repoint", 60, "")],
                 thorough=[("wsexh", 196, "k=2"), ("wsexh", 2744, "k=3"), ("wsexh", 38416, "k=4"), ("wsrand", 6000, ""), ("repoint", 600, "")]),
@@ -45,6 +45,9 @@ PLANS = {
                 quick=[("multi", 100, ""), ("absorb", 40, "")],
                 thorough=[("multi", 2000, ""), ("absorb", 400, "")]),
 }
+
+PLANS["C15"] = dict(engine="ops")
+PLANS["C16"] = dict(engine="ops")
 
 TEXT = {
     "C01": "No lost events", "C02": "No phantom events", "C03": "Order", "C04": "Watch-set semantics",
